@@ -15,7 +15,7 @@ import sys,re
 id,log=sys.argv[1],sys.argv[2]
 hits={}
 for l in open(log,errors='replace'):
-    m=re.match(r'VIOLATION property=(C\d+) replay=\S+#(.*)$', l.strip())
+    m=re.match(r'VIOLATION property=(C\d+) replay=[^#\s]+#(.*)$', l.strip())
     if m: hits.setdefault(m.group(1),[]).append(m.group(2))
 own=id[:3]
 print(id, "OWN" if own in hits else "MISS", {k:len(v) for k,v in hits.items()})
